@@ -58,6 +58,10 @@ CHECKS = {
    text="partial: Coq theorems, for every source text, about the positions the tokenizer attaches to tokens - which are the positions every parse error and every opcode carries: they are the true line and column of the token's first byte; a token that starts inside a byte span is reported on a line of that span; text put in front (ending with a line feed) moves every later position by exactly the lines added and leaves the column; text put behind changes no earlier token; and the opcodes of a statement do not depend on the neighbouring statements. That the parser and the evaluator report the position of the failing token / operand of the faulty statement (and list the calling statement for a fault in a function body) is decided against the implementation: generated multi-line programs with one fault of every kind, each in several forms (literal operand, operand bound earlier, operand returned by a function defined earlier), at every statement position and nesting position, each also with 1..3 statements inserted before",
    note="positions are dropped in the VM model (C01), so 'the error carries the failing operand's position' is observed, not proved; a syntax diagnostic may point at the first token after the faulty statement, where the parser notices the fault",
    technique="Coq proof (token position theorems: exactness, span, prefix shift, suffix independence; translate distributes over statement lists) + fault-injection correspondence on the real evaluator"),
+ "C20": dict(category="proof",
+   text="partial: Coq state machine of the server's document store (full-text sync: open/change replace the text, close removes it and falls back to disk; the workspace view is the disk overlaid by the open documents) with the analysis abstract: after any message sequence the store is a function of the current texts only, the diagnostics published last for a document are the analysis of its current text, and re-sending the texts yields what a fresh server yields. Everything about the real analysis is decided against the running server: generated sessions of 1..30 messages over 1..3 documents (generated, token-mutated, truncated, soup and CRLF texts; positions at token starts, inside tokens, at and past line ends, beyond the document up to u32::MAX) driven over stdio; the server must stay alive and answer every request, every reported range must lie in the document it names, final diagnostics and workspace symbols must equal a fresh server's on the final texts, syntax diagnostics must agree with the compiler's parser in presence and position, and texts that `ucg build` accepts must have no diagnostics",
+   note="the analysis itself (tokenise/parse/type-check, hover, completion) is not modelled; one listed known finding (positions are byte columns / LF lines, not UTF-16 / CR-aware)",
+   technique="Coq proof (document-store refinement with abstract analysis) + session-level correspondence with the running server, a fresh server and the compiler's parser"),
  "C13": dict(category="proof",
    text="Coq state machine of the assertion collector and the `ucg test` driver: the verdict of each file equals its specification (builds and all assertions ok), independent of the other files and their order, exit status non-zero iff some file fails, each assertion logged exactly once; a lemma shows the shared collector of the original code refuted this. Tied to the real binary by running generated test files in every order and comparing verdicts, logs and exit status with the extracted model and with the generator's ground truth",
    note="per-file build abstracted to the list of asserted values; asserts in imported files and directory recursion order not modelled",
@@ -81,6 +85,8 @@ def main():
         if not c:
             na.append({"property_id": pid, "reason": c.get("reason") if c else PENDING_REASON})
             continue
+        if c["category"] == "proof" and not os.path.exists(os.path.join(HERE, "coq", "theories", "props", pid + "_Props.v")):
+            c = dict(c, category="exploration")      # the obligations file is not integrated yet
         checks.append({
             "property_id": pid,
             "quick_cmd": "./check %s --tier quick" % pid,
